@@ -84,7 +84,8 @@ def render(shape, conc):
         parts["yp"] = f" ({conc['publisher']} {year})"
     parts["paren"] = PAREN[shape["paren"]]
     parts["term"] = TERM[shape["term"]]
-    parts["trail"] = TRAIL[shape["trail"]].lstrip() if shape["term"] == "space" else TRAIL[shape["trail"]]
+    trail = f" The court in {df} at 12 agreed." if shape["trail"] == "nameref" else TRAIL[shape["trail"]]
+    parts["trail"] = trail.lstrip() if shape["term"] == "space" else trail
     order = ["lead", "parties", "preyear", "core", "pin", "parallel", "yp", "paren", "term", "trail"]
     text, off = "", {}
     for s in order:
